@@ -15,7 +15,8 @@
 // Type words (prefix notation, '.'-separated):  p1 p2 p4 p8 (unsigned), i4 (int), d8 (double), s (std::string),
 // v1 v2 v4 v8 (std::vector<POD>), L.T (std::vector<T>, T not POD), Q.T (std::list<T>), S.T (std::set<T>),
 // M.K.V (std::map), P.A.B (std::pair), R.T (booster::shared_ptr), U.T (std::unique_ptr), C.T (booster::copy_ptr),
-// B.T (serializable class with one member), X.A.B (serializable class with two members).
+// B.T (serializable class with one member), X.A.B (serializable class with two members),
+// W.T (std::multiset), N.K.V (std::multimap), A<n>.T (T[n], T not arithmetic), p<bytes> also names arithmetic arrays.
 // Value tokens: x<hex> (POD / POD vector bytes), s<hex>, n<count> then the elements, 0 | 1 <value> for pointers.
 #include <cppcms/serialization.h>
 #include <sanitizer/asan_interface.h>
@@ -92,6 +93,12 @@ template<typename A,typename B> struct TN<std::pair<A,B> > { static std::string 
 template<typename T> struct TN<booster::shared_ptr<T> > { static std::string name() { return "R." + TN<T>::name(); } };
 template<typename T> struct TN<std::unique_ptr<T> > { static std::string name() { return "U." + TN<T>::name(); } };
 template<typename T> struct TN<booster::copy_ptr<T> > { static std::string name() { return "C." + TN<T>::name(); } };
+template<typename T> struct TN<std::multiset<T> > { static std::string name() { return "W." + TN<T>::name(); } };
+template<typename K,typename V> struct TN<std::multimap<K,V> > { static std::string name() { return "N." + TN<K>::name() + "." + TN<V>::name(); } };
+template<typename T,size_t N> struct TN<T[N],typename std::enable_if<std::is_arithmetic<T>::value>::type> {
+	static std::string name() { return "p" + std::to_string(sizeof(T)*N); } };
+template<typename T,size_t N> struct TN<T[N],typename std::enable_if<!std::is_arithmetic<T>::value>::type> {
+	static std::string name() { return "A" + std::to_string(N) + "." + TN<T>::name(); } };
 template<typename T> struct TN<box<T> > { static std::string name() { return "B." + TN<T>::name(); } };
 template<typename A,typename B> struct TN<rec2<A,B> > { static std::string name() { return "X." + TN<A>::name() + "." + TN<B>::name(); } };
 
@@ -134,6 +141,14 @@ template<typename T> void dump(std::unique_ptr<T> const &v,std::string &o);
 template<typename T> void parse(Tok &t,std::unique_ptr<T> &v);
 template<typename T> void dump(booster::copy_ptr<T> const &v,std::string &o);
 template<typename T> void parse(Tok &t,booster::copy_ptr<T> &v);
+template<typename T> void dump(std::multiset<T> const &v,std::string &o);
+template<typename T> void parse(Tok &t,std::multiset<T> &v);
+template<typename K,typename V> void dump(std::multimap<K,V> const &v,std::string &o);
+template<typename K,typename V> void parse(Tok &t,std::multimap<K,V> &v);
+template<typename T,size_t N> typename std::enable_if<std::is_arithmetic<T>::value>::type dump(T const (&v)[N],std::string &o);
+template<typename T,size_t N> typename std::enable_if<std::is_arithmetic<T>::value>::type parse(Tok &t,T (&v)[N]);
+template<typename T,size_t N> typename std::enable_if<!std::is_arithmetic<T>::value>::type dump(T const (&v)[N],std::string &o);
+template<typename T,size_t N> typename std::enable_if<!std::is_arithmetic<T>::value>::type parse(Tok &t,T (&v)[N]);
 template<typename T> void dump(box<T> const &v,std::string &o);
 template<typename T> void parse(Tok &t,box<T> &v);
 template<typename A,typename B> void dump(rec2<A,B> const &v,std::string &o);
@@ -168,6 +183,27 @@ template<typename K,typename V> void parse(Tok &t,std::map<K,V> &v)
 	size_t n=t.count(); v.clear();
 	for(size_t i=0;i<n;i++) { std::pair<K,V> x; parse(t,x); v.insert(x); }
 }
+template<typename T> void dump(std::multiset<T> const &v,std::string &o) { dump_seq(v,o); }
+template<typename K,typename V> void dump(std::multimap<K,V> const &v,std::string &o) { dump_seq(v,o); }
+template<typename T> void parse(Tok &t,std::multiset<T> &v)
+{
+	size_t n=t.count(); v.clear();
+	for(size_t i=0;i<n;i++) { T x=T(); parse(t,x); v.insert(x); }
+}
+template<typename K,typename V> void parse(Tok &t,std::multimap<K,V> &v)
+{
+	size_t n=t.count(); v.clear();
+	for(size_t i=0;i<n;i++) { std::pair<K,V> x; parse(t,x); v.insert(x); }
+}
+template<typename T,size_t N> typename std::enable_if<std::is_arithmetic<T>::value>::type dump(T const (&v)[N],std::string &o) { o+=" x"; o+=hx(&v[0],sizeof(T)*N); }
+template<typename T,size_t N> typename std::enable_if<std::is_arithmetic<T>::value>::type parse(Tok &t,T (&v)[N])
+{
+	std::string b=t.bytes('x');
+	if(b.size()!=sizeof(T)*N) throw std::runtime_error("bad-op");
+	memcpy(&v[0],b.data(),b.size());
+}
+template<typename T,size_t N> typename std::enable_if<!std::is_arithmetic<T>::value>::type dump(T const (&v)[N],std::string &o) { for(size_t i=0;i<N;i++) dump(v[i],o); }
+template<typename T,size_t N> typename std::enable_if<!std::is_arithmetic<T>::value>::type parse(Tok &t,T (&v)[N]) { for(size_t i=0;i<N;i++) parse(t,v[i]); }
 template<typename A,typename B> void dump(std::pair<A,B> const &v,std::string &o) { dump(v.first,o); dump(v.second,o); }
 template<typename A,typename B> void parse(Tok &t,std::pair<A,B> &v)
 {
@@ -324,6 +360,11 @@ static void init()
 	regs<box<u4> >(); regs<box<string> >(); regs<box<vector<string> > >(); regs<box<map<string,vector<u4> > > >();
 	regs<rec2<u4,string> >(); regs<rec2<string,rec2<vector<u2>,set<string> > > >(); regs<rec2<shared_ptr<string>,list<pair<u4,string> > > >();
 	reg<vector<rec2<u4,string> > >(); reg<shared_ptr<box<string> > >();
+	reg<std::multiset<u4> >(); reg<std::multiset<string> >(); reg<std::multiset<pair<u1,string> > >(); reg<vector<std::multiset<u2> > >();
+	reg<std::multimap<u4,string> >(); reg<std::multimap<string,vector<u4> > >(); reg<std::multimap<u1,std::multiset<string> > >();
+	reg<map<std::multiset<u1>,string> >();
+	regs<box<string[3]> >(); regs<box<u4[3]> >(); regs<box<vector<string>[2]> >(); regs<rec2<u2[4],set<string>[2]> >();
+	regs<box<map<string,u4>[1]> >();
 }
 
 static std::string run(std::vector<std::string> const &w)
